@@ -5,6 +5,7 @@ location / scale the object is expected to hold.  S1 = every small matrix x para
 S2 = BFS over operation histories on curated matrices (1-D, 2-D, 3-D)."""
 from __future__ import annotations
 import collections, itertools, math
+import copy as _copy
 from fractions import Fraction
 import numpy
 
@@ -70,7 +71,7 @@ def make(mat, loc, scale, seed_unused=None):
     mag = []
     for j in range(t):
         pres = [abs(float(Fraction(scl[j]) * Fraction(float(v)))) for v in flat[:, j].tolist() if not math.isnan(v)]
-        mag.append(max([1.0, abs(locl[j])] + pres + [abs(float(v)) for v in cols[j] if v is not None]))
+        mag.append(max([0.0, abs(locl[j])] + pres + [abs(float(v)) for v in cols[j] if v is not None]))
     return obj, Model(arr.shape, cols, locl, scl, mag)
 
 
@@ -125,12 +126,14 @@ def check_loc_scale(obj, m, els, sig):
         l, s = float(obj.location[j]), float(obj.scale[j])
         if math.isnan(el):
             continue                      # nothing present in this column: location/scale undefined
-        tol = R.TOL * m.mag[j]
-        require(abs(l - el) <= tol, sig + ":location", lambda: f"column {j}: location {l!r}, mean of raw values {el!r}")
+        tol = 2 * R.TOL * m.mag[j]        # relative to the column magnitude, no absolute floor
+        require(abs(l - el) <= tol, sig + ":location", lambda: f"column {j}: location {l!r}, mean of raw values {el!r} (tol {tol:.3g})")
         if const:
             require(s == 1.0, sig + ":scale:constant-column-not-unit", lambda: f"column {j} constant, scale {s!r}")
         else:
-            require(abs(s - es) <= tol, sig + ":scale", lambda: f"column {j}: scale {s!r}, std of raw values {es!r}")
+            # a spread below the rounding level of scale*mat+location may legitimately be seen as constant
+            collapsed = es <= tol and s == 1.0
+            require(collapsed or abs(s - es) <= tol, sig + ":scale", lambda: f"column {j}: scale {s!r}, std of raw values {es!r} (tol {tol:.3g})")
 
 
 def arg_matrix(xid, m, seed):
@@ -143,10 +146,13 @@ def arg_matrix(xid, m, seed):
 
 
 EVENTS = ([["rescale", True], ["rescale", False], ["unscale", True], ["unscale", False]] +
-          [[op, xid, cp] for op in ("transform", "untransform") for xid in ("raw", "alt") for cp in (True, False)])
+          [[op, xid, cp] for op in ("transform", "untransform") for xid in ("raw", "alt") for cp in (True, False)] +
+          [["copy", how, follow] for how in ("copy", "copy.copy") for follow in ("unscale", "rescale", "transform")])
 
 
 def opsig(ev):
+    if ev[0] == "copy":
+        return f"{C}.__copy__"
     if ev[0] in ("rescale", "unscale"):
         return f"{C}.{ev[0]}(inplace={ev[1]})"
     return f"{C}.{ev[0]}(copy={ev[2]})"
@@ -158,6 +164,30 @@ def step(obj, m, ev, seed):
     t = m.shape[-1]
     pre = snap(obj)
     op = ev[0]
+    if op == "copy":
+        # a (shallow) copy is an independent matrix: it holds the same values, and no in-place operation on the copy
+        # may change what the source object stores or what it unscales to
+        how, follow = ev[1], ev[2]
+        c = obj.copy() if how == "copy" else _copy.copy(obj)
+        require(c is not obj and isinstance(c, type(obj)), sig + ":returns-self", "")
+        require(unchanged(c, pre), sig + ":copy-differs", lambda: f"copy holds mat={c.mat.tolist()} location={c.location!r} scale={c.scale!r}")
+        check_raw(c, m, sig + ":copy")
+        if follow == "unscale":
+            c.unscale(inplace=True)
+            compare_cols(_cells(c.mat, t), m, sig + ":copy", "copy.mat after unscale(inplace=True)")
+        elif follow == "rescale":
+            c.rescale(inplace=True)
+            check_raw(c, m, sig + ":copy")
+        else:
+            c.untransform(c.mat, copy=False)
+            c.transform(c.mat, copy=False)
+        require(unchanged(obj, pre), sig + ":shares-state-with-source",
+                lambda: f"{follow} in place on the copy changed the source: location={obj.location.tolist()} scale={obj.scale.tolist()} "
+                        f"(before: {pre[1].tolist()}, {pre[2].tolist()})")
+        check_raw(obj, m, sig + ":source-after-inplace-op-on-copy")
+        compare_cols(_cells(obj.unscale(inplace=False), t), m, sig + ":source-after-inplace-op-on-copy", "source.unscale(inplace=False)")
+        compare_cols(_cells(obj.untransform(obj.mat, copy=True), t), m, sig + ":source-after-inplace-op-on-copy", "source.untransform(source.mat)")
+        return m
     if op == "rescale":
         inplace = ev[1]
         els = expected_loc_scale(m)
@@ -168,13 +198,15 @@ def step(obj, m, ev, seed):
             check_loc_scale(obj, m, els, sig)
             check_raw(obj, m, sig)
             nm = m.copy()
-            nm.loc = [e[0] for e in els]
-            nm.scale = [e[1] for e in els]
+            # transform()/untransform() are documented to use the parameters stored in the object: having been judged
+            # against the model (within the rounding tolerance) just above, the stored values become the reference
+            nm.loc = [float(v) for v in obj.location]
+            nm.scale = [float(v) for v in obj.scale]
             return nm
         require(unchanged(obj, pre), sig + ":mutates-self", "object changed although inplace=False")
         require(not numpy.shares_memory(r, obj.mat), sig + ":returns-internal-array", "")
         exp = [[None if v is None else (float(v) - els[j][0]) / els[j][1] for v in m.cols[j]] for j in range(t)]
-        tols = [(lambda e, j=j: R.TOL * m.mag[j] / els[j][1] + R.TOL * abs(e)) for j in range(t)]
+        tols = [(lambda e, j=j: 4 * R.TOL * m.mag[j] / els[j][1] + 1e-9 * abs(e)) for j in range(t)]
         compare_cols(_cells(r, t), m, sig, "standardised copy", exp, tols)
         return m
     if op == "unscale":
@@ -218,11 +250,11 @@ def step(obj, m, ev, seed):
             else:
                 col.append(float(Fraction(x) * Fraction(s) + Fraction(l)))
         exp.append(col)
-        big = max([1.0, abs(l) if not math.isnan(l) else 1.0] + [abs(x) for x in xf[:, j].tolist() if not math.isnan(x)])
+        big = max([0.0, abs(l) if not math.isnan(l) else 0.0] + [abs(x) for x in xf[:, j].tolist() if not math.isnan(x)])
         if op == "transform":
-            tols.append(lambda e, big=big, s=s: 1e-9 * abs(e) + R.TOL * big / abs(s) * 10)
+            tols.append(lambda e, big=big, s=s: 1e-9 * abs(e) + R.TOL * big / abs(s))
         else:
-            tols.append(lambda e, big=big, s=s: 1e-9 * abs(e) + R.TOL * big * max(1.0, abs(s)) * 10)
+            tols.append(lambda e, big=big, s=s: 1e-9 * abs(e) + R.TOL * max(big * abs(s), abs(l) if not math.isnan(l) else 0.0))
     compare_cols(_cells(r, t), m, sig, f"{op}({xid})", exp, tols)
     return m
 
@@ -310,6 +342,7 @@ CURATED = [
     [["L", "N"], ["a", "z"], ["z", "N"]],
     [["L"], ["L"], ["L"]],
     [["N", "a"]],
+    [["e", "H"], ["f", "G"], ["z", "H"]],                    # tiny spread | offset + tiny pair
 ]
 
 
@@ -324,6 +357,8 @@ def shards(tier, seed):
         else:
             for p in itertools.product(R.SYMS, repeat=2):
                 out.append(("S1", n, t, p))
+    for (n, t) in [(1, 1), (2, 1), (3, 1), (1, 2), (2, 2)] + ([(4, 1)] if T else []):
+        out.append(("S1T", n, t, ()))
     for i in range(len(CURATED)):
         out.append(("S2", i, 4 if T else 3))
     return out
@@ -331,9 +366,10 @@ def shards(tier, seed):
 
 def run_shard(spec, ctx):
     seed = ctx.seed
-    if spec[0] == "S1":
+    if spec[0] in ("S1", "S1T"):
         _, n, t, prefix = spec
-        for tail in itertools.product(R.SYMS, repeat=n * t - len(prefix)):
+        ctx.flag("S:alphabet:" + ("main" if spec[0] == "S1" else "tiny"))
+        for tail in itertools.product(R.SYMS if spec[0] == "S1" else R.TSYMS, repeat=n * t - len(prefix)):
             cells = tuple(prefix) + tail
             mat = R.concrete([list(cells[i * t:(i + 1) * t]) for i in range(n)], seed)
             for vid in ("V0", "V1", "V2"):
@@ -349,8 +385,9 @@ def run_shard(spec, ctx):
 
 def finalize(ctx, tier, seed):
     c, f = ctx.counters, ctx.flags
-    for op in ("rescale", "unscale", "transform", "untransform"):
+    for op in ("rescale", "unscale", "transform", "untransform", "copy"):
         assert c.get(f"S:op:{op}", 0) > 0, op
+    assert "S:alphabet:tiny" in f and "S:alphabet:main" in f
     for fl in ("S:changes:rescale", "S:changes:unscale", "S:constant-column", "S:nan-column", "S:ndim=1", "S:ndim=2", "S:ndim=3"):
         assert fl in f, fl
     assert c.get("S1:cases", 0) > 100 and c.get("S2:roots", 0) > 0
